@@ -15,22 +15,42 @@ with an ERROR-level record / failed assertion (how often within the cycle, and w
 the record reaches the handler, is only counted).  In "fatal" runs `on_error` raises,
 as the library's TestCase does ("Simulation finished due to an error"): the failure must leave the
 library's process in exactly the first cycle with an ERROR-level record, and in no run without one.
+
+Entry points: every site uses one of HardwareLogger.debug/info/warning/error/log/assertion, the module-level
+assertion(), or -- "top" sites -- HardwareLogger.top_debug/top_info/top_warning/top_error/top_log/top_assertion
+and the module-level top_assertion(); a top site is documented to ignore m.If etc., so its record is expected
+in exactly the cycles where its trigger holds, whatever the enclosing context does.  Levels are the five
+standard ones or a custom integer (log / top_log): a level >= ERROR ends the simulation, a lower one does not.
+Contexts (dst/models/ctxprog.py) include m.AvoidedIf and m.FSM / m.State in a share of the runs.
+
+In a share of the fatal runs the logging process and its on_error are the ones the library's own
+TestCaseWithSimulatorBase._configure_logging() builds (level and filter given through the environment
+variables it reads, parsed by parse_logging_level): the AssertionError of *that* on_error must leave the
+process.  In a share of the runs the design is additionally wrapped in HDLLogWrapper /
+HDLLogWrapperComponent and everything pysim prints for its `Print` statements is captured: per cycle the
+printed record lines are exactly the expected records (logger name and formatted message; separator lines,
+level names, cycle numbers and locations are only counted).
 """
 
 from __future__ import annotations
 
 import logging
+import os
 import re
 
 from ..comp import CompScenario
 from ..kernel import Inconclusive
-from ..models.ctxprog import CtxDesign, eval_sites, gen_ctx_stim, gen_prog, running_arg, to_signed
+from ..models.ctxprog import CtxDesign, CtxEval, gen_ctx_stim, gen_prog, running_arg, to_signed
 from ..propbase import PropBase, make_plan, phase_at
 
 ROOT_NS = "c34v"
-LOGGERS = ["c34v.core", "c34v.core.alu", "c34v.mem"]
+GLOBAL = 3  # the logger the module-level assertion() / top_assertion() use when no name= is given
+LOGGERS = ["c34v.core", "c34v.core.alu", "c34v.mem", "global"]
 LEVELS = {"debug": logging.DEBUG, "info": logging.INFO, "warning": logging.WARNING, "error": logging.ERROR,
           "assert": logging.ERROR}
+CUSTOM_LEVELS = [5, 15, 25, 35, 39, 41, 45, 50, 60]  # level "custom": passed as an integer to log / top_log
+ENV_LEVEL, ENV_FILTER = "__TRANSACTRON_LOG_LEVEL", "__TRANSACTRON_LOG_FILTER"
+SEP_RE = re.compile(r"--- CYCLE (\d+) ---")
 INT_SPECS = ["", "", "d", "x", "X", "b", "o", "03d", "08b", "#x", "#b", "#o", "#X", "+d", " d", "-d", ">6", "<6x",
              "*>8d", "0=6d", "=+5d", "_d", "_x", "_b", "5", "#06x", "+#x", "#010_b", "x<4", "=7x", "1", "012_d", "#_X"]
 STR_SPECS = ["s", "s", ">6s", "<5s", "*<7s", "8s", "_>3s"]
@@ -53,8 +73,55 @@ class _Capture(logging.Handler):
         self.scen.captured.append((tl._sim_cycle, record.name, record.levelno, record.getMessage()))
 
 
+def level_no(site):
+    return site["lvlno"] if site["level"] == "custom" else LEVELS[site["level"]]
+
+
+def is_top(site):
+    return site.get("api") == "top"
+
+
+def entry_point(site):
+    """Name of the library function the site calls."""
+    top = is_top(site)
+    if site["level"] == "assert":
+        if site.get("short"):
+            return "module_top_assertion" if top else "module_assertion"
+        return "top_assertion" if top else "assertion"
+    if site.get("short") or site["level"] == "custom":
+        return "top_log" if top else "log"
+    return ("top_" if top else "") + site["level"]
+
+
+class _PrintCapture:
+    """Stands in for `print` inside the code pysim compiles for the design (HDLLogWrapper's Print statements)."""
+
+    def __init__(self):
+        self.chunks: list = []
+
+    def __call__(self, *args, sep=" ", end="\n", **kw):
+        self.chunks.append(sep.join(str(a) for a in args) + end)
+
+
+def _component_top(top):
+    """HDLLogWrapperComponent wants a Component: the container with an empty signature."""
+    from amaranth.lib.wiring import Component
+
+    class TopComponent(Component):
+        def __init__(self, inner):
+            super().__init__({})
+            self.inner = inner
+
+        def elaborate(self, platform):
+            return self.inner.elaborate(platform)
+
+    return TopComponent(top)
+
+
 def build_format(site, k):
     """The site's PEP-3101 format string; the leading tag makes every message attributable to its site."""
+    if site.get("nofmt"):
+        return ""  # HardwareLogger.assertion(m, value): the documented default format
     out = [f"S{k}|"]
     for p in site["pieces"]:
         if p[0] == "lit":
@@ -78,13 +145,13 @@ def rec_matches(got, want):
     return got[:3] == want[:3] and got[3].endswith(want[3])
 
 
-def match_records(new, want):
+def match_records(new, want, matches=rec_matches):
     """An injective assignment of the reported records to expected records (None if there is none)."""
     def go(i, free):
         if i == len(new):
             return []
         for j in free:
-            if rec_matches(new[i], want[j]):
+            if matches(new[i], want[j]):
                 rest = go(i + 1, [x for x in free if x != j])
                 if rest is not None:
                     return [j] + rest
@@ -125,6 +192,7 @@ class Scen(CompScenario):
                     sig = Signal(signed(src["w"]) if src.get("signed") else unsigned(src["w"]), name=f"s{k}_f{fi}")
                     self.site_sig[f"s{k}.f{fi}"] = sig
                     self.add_input(f"s{k}.f{fi}", sig)
+        self.ev = CtxEval(c["prog"])
         self.design = CtxDesign(c["prog"], self._emit)
         for name, sig in self.design.sig.items():
             self.add_input(name, sig)
@@ -141,13 +209,30 @@ class Scen(CompScenario):
         self.failed_at = None  # fatal runs: cycle in which the failure left the library's process
         self.ended = False
         self.any_error_expected = False
-        lg = logging.getLogger(ROOT_NS)
-        for h in list(lg.handlers):
-            lg.removeHandler(h)
-        lg.propagate = False
-        lg.setLevel(logging.DEBUG)
         self.handler = _Capture(self)
-        lg.addHandler(self.handler)
+        for name in (ROOT_NS, LOGGERS[GLOBAL]):
+            lg = logging.getLogger(name)
+            for h in list(lg.handlers):
+                lg.removeHandler(h)
+            lg.propagate = False
+            lg.setLevel(1)  # custom levels below DEBUG are records too
+            lg.addHandler(self.handler)
+
+        # a share of the runs: the library's HDL back end prints the same records next to the logging process
+        self.hdl = c.get("hdl")
+        self.hdl_out = _PrintCapture()
+        self.hdl_pending: list = []  # (logger name, level, message) expected from the wrapper for the previous cycle
+        if self.hdl:
+            from transactron.testing.logging import HDLLogWrapper, HDLLogWrapperComponent
+
+            h = self.hdl
+            kw = {}
+            if not h.get("dflt"):
+                kw = dict(print_cycle_separator=bool(h["sep"]), print_src_loc=bool(h["loc"]), level=c["min_level"],
+                          namespace_regexp=c["ns"])
+            if h.get("comp"):
+                return HDLLogWrapperComponent(_component_top(self.top), **kw)
+            return HDLLogWrapper(self.top, **kw)
         return self.top
 
     def _emit(self, m, k, env):
@@ -185,17 +270,64 @@ class Scen(CompScenario):
         self.order.append(k)
         log = self.loggers[s["logger"]]
         trig = self.site_sig[f"s{k}.trig"]
-        loc = (f"c34_site_{k}.py", 200 + k)
-        lvl = s["level"]
-        if lvl == "assert":
-            if s.get("short"):
-                tlog.assertion(m, trig, fmt, *pos, name=LOGGERS[s["logger"]], src_loc=loc, **kw)
+        if not s.get("defloc"):  # otherwise the default src_loc (the location of this call; not judged)
+            kw["src_loc"] = (f"c34_site_{k}.py", 200 + k)
+        ep = entry_point(s)
+        if ep in ("module_assertion", "module_top_assertion"):
+            if s["logger"] != GLOBAL:  # otherwise the documented default name="global"
+                kw["name"] = LOGGERS[s["logger"]]
+            if ep == "module_assertion":
+                tlog.assertion(m, trig, fmt, *pos, **kw)
             else:
-                log.assertion(m, trig, fmt, *pos, src_loc=loc, **kw)
-        elif s.get("short"):
-            log.log(m, LEVELS[lvl], trig, fmt, *pos, src_loc=loc, **kw)
+                tlog.top_assertion(trig, fmt, *pos, **kw)
+        elif ep == "assertion":
+            if s.get("nofmt"):
+                log.assertion(m, trig, **kw)
+            else:
+                log.assertion(m, trig, fmt, *pos, **kw)
+        elif ep == "top_assertion":
+            log.top_assertion(trig, fmt, *pos, **kw)
+        elif ep == "log":
+            log.log(m, level_no(s), trig, fmt, *pos, **kw)
+        elif ep == "top_log":
+            log.top_log(level_no(s), trig, fmt, *pos, **kw)
+        elif is_top(s):  # top_debug / top_info / top_warning / top_error: no module, not gated by the context
+            getattr(log, ep)(trig, fmt, *pos, **kw)
         else:
-            getattr(log, lvl)(m, trig, fmt, *pos, src_loc=loc, **kw)
+            getattr(log, ep)(m, trig, fmt, *pos, **kw)
+
+    def _library_logging_process(self):
+        """The logging process exactly as TestCaseWithSimulatorBase sets it up for a test: level and filter
+        from the environment (parse_logging_level), the library's own on_error."""
+        from transactron.testing.test_case import TestCaseWithSimulatorBase
+
+        lvl = self.cfg["min_level"]
+        how = self.cfg.get("lvl_text", "num")
+        text = str(lvl)
+        if how != "num" and lvl in (logging.DEBUG, logging.INFO, logging.WARNING, logging.ERROR):
+            text = logging.getLevelName(lvl)
+            text = text.lower() if how == "lower" else text
+            self.hit("library_level_given_by_name")
+        saved = {k: os.environ.get(k) for k in (ENV_LEVEL, ENV_FILTER)}
+        root = logging.getLogger()
+        before = list(root.handlers)
+        try:
+            os.environ[ENV_LEVEL] = text
+            os.environ[ENV_FILTER] = self.cfg["ns"]
+            tc = TestCaseWithSimulatorBase()
+            tc._transactron_sim_processes_to_add = []
+            with tc._configure_logging():
+                makers = list(tc._transactron_sim_processes_to_add)
+        finally:
+            root.handlers[:] = before
+            for k, v in saved.items():
+                if v is None:
+                    os.environ.pop(k, None)
+                else:
+                    os.environ[k] = v
+        if len(makers) != 1:
+            raise RuntimeError(f"_configure_logging registered {len(makers)} processes")
+        return makers[0]()
 
     def post_elab(self, tm):
         from transactron.testing.logging import make_logging_process
@@ -214,9 +346,12 @@ class Scen(CompScenario):
         for idx, k in enumerate(self.order):
             s = self.sites[k]
             r = records[idx]
-            self.expect(r.logger_name == LOGGERS[s["logger"]] and r.level == LEVELS[s["level"]]
-                        and tuple(r.location) == (f"c34_site_{k}.py", 200 + k), "registration-mismatch",
-                        f"record {idx}: {r.logger_name} level {r.level} at {r.location}", site=k)
+            self.expect(r.logger_name == LOGGERS[s["logger"]] and r.level == level_no(s)
+                        and (s.get("defloc") or tuple(r.location) == (f"c34_site_{k}.py", 200 + k)),
+                        "registration-mismatch",
+                        f"record {idx} ({entry_point(s)}): logger {r.logger_name!r} level {r.level} at {r.location}, "
+                        f"the statement says logger {LOGGERS[s['logger']]!r} level {level_no(s)}", site=k,
+                        entry=entry_point(s))
             self.add_obs(f"site{idx}.trig", r.trigger)
             for n, v in enumerate(r.fields):
                 self.add_obs(f"site{idx}.f{n}", v)
@@ -231,7 +366,11 @@ class Scen(CompScenario):
             if fatal:
                 raise SimFailure("Simulation finished due to an error")
 
-        log_process = make_logging_process(self.cfg["min_level"], self.cfg["ns"], on_error)
+        self.real_tc = bool(self.cfg.get("real_tc"))
+        if self.real_tc:
+            log_process = self._library_logging_process()
+        else:
+            log_process = make_logging_process(self.cfg["min_level"], self.cfg["ns"], on_error)
 
         async def guarded(sim):
             # The kernel cannot accept an exception out of sim.run() as an expected outcome, so the failure is
@@ -240,14 +379,26 @@ class Scen(CompScenario):
 
             try:
                 await log_process(sim)
-            except SimFailure:
+            except AssertionError:  # SimFailure of the stub, or what the library's own on_error raises
                 scen.failed_at = tl._sim_cycle
 
         self.extra_processes = [("process", guarded), ("process", tick)]
         self.premise(ns_agrees(self.cfg["ns"]),
                      f"namespace filter {self.cfg['ns']!r}: re.search / re.match / re.fullmatch select different loggers")
-        self.included = [LEVELS[self.sites[k]["level"]] >= self.cfg["min_level"]
+        self.included = [level_no(self.sites[k]) >= self.cfg["min_level"]
                          and re.search(self.cfg["ns"], LOGGERS[self.sites[k]["logger"]]) is not None for k in self.order]
+        self.hdl_included = [False] * len(self.order)
+        if self.hdl:
+            self.hdl_included = [True] * len(self.order) if self.hdl.get("dflt") else list(self.included)
+            # pysim executes a Print statement as a call of `print` in the code it compiled for the fragment
+            n = 0
+            for proc in self.sim._engine._processes:
+                g = getattr(getattr(proc, "run", None), "__globals__", None)
+                if g is not None and "slots" in g:
+                    g["print"] = self.hdl_out
+                    n += 1
+            if not n:
+                raise RuntimeError("no compiled pysim process found to capture Print output from")
 
     # ---- stimulus ------------------------------------------------------------------------------
     def stimulus(self, rng, cyc):
@@ -259,7 +410,7 @@ class Scen(CompScenario):
         pfire = {"random": p, "on": 0.9, "off": 0.9, "quiet": 0.05, "flap": 0.5}[kind]
         for k, s in enumerate(self.sites):
             q = pfire
-            if LEVELS[s["level"]] >= logging.ERROR:
+            if level_no(s) >= logging.ERROR:
                 q = min(q, self.cfg["perr"])  # error sites fire rarely when a failure ends the run
             fire = rng.random() < q
             nz = rng.randrange(1, 1 << s["whenw"])
@@ -327,8 +478,13 @@ class Scen(CompScenario):
             # the run ends here: at least the first ERROR-level record was reported, nothing unexpected was
             self.expect(self.failed_at == cycle, "failure-missing",
                         f"cycle {cycle}: ERROR-level record(s) {want_err!r} but the failure did not end the library's "
-                        f"process (failed_at={self.failed_at}, on_error calls {calls})")
-            self.expect(bool(calls), "on-error-mismatch", f"cycle {cycle}: no on_error call before the end")
+                        f"process (failed_at={self.failed_at}, "
+                        + ("on_error built by the library's test case" if self.real_tc else f"on_error calls {calls}") + ")",
+                        level="/".join(sorted({logging.getLevelName(r[2]) for r in want_err})), real_tc=self.real_tc)
+            if self.real_tc:
+                self.hit("library_on_error_ended_run")
+            else:
+                self.expect(bool(calls), "on-error-mismatch", f"cycle {cycle}: no on_error call before the end")
             self.expect(match_records(new, want) is not None, "report-mismatch",
                         f"cycle {cycle}: reported {new!r}, trigger∧context gives {want!r}")
             self.expect(bool(new) and new[-1][2] >= logging.ERROR, "report-mismatch",
@@ -350,27 +506,69 @@ class Scen(CompScenario):
         if len(want_err) >= 2:
             self.hit("two_errors_same_cycle")
 
+    def _compare_hdl(self, cycle):
+        """What pysim printed for HDLLogWrapper's Print statements at the clock edge that ended `cycle`: one
+        piece of output (one executed Print statement = one call of `print`; a message may contain newlines)
+        per expected record, ending with "<logger name>: <formatted message>".  The separator line, the level
+        name, the cycle number and the location in front of that are not in the statement: counted."""
+        pieces = list(self.hdl_out.chunks)
+        del self.hdl_out.chunks[:]
+        want = self.hdl_pending
+        self.hdl_pending = []
+        sep = bool(self.hdl.get("dflt") or self.hdl["sep"])  # the wrapper's default: separator lines
+        recs, nsep = [], 0
+        for ln in pieces:
+            if ln.endswith("\n"):
+                ln = ln[:-1]
+            else:
+                self.hit("hdl_output_without_final_newline")
+            mm = SEP_RE.fullmatch(ln) if sep else None
+            if mm:
+                nsep += 1
+                if int(mm.group(1)) != cycle:
+                    self.hit("hdl_separator_cycle_differs")
+            else:
+                recs.append(ln)
+        assign = match_records(recs, want, lambda ln, w: ln.endswith(f"{w[0]}: {w[2]}"))
+        self.expect(len(recs) == len(want) and assign is not None, "hdl-print-mismatch",
+                    f"cycle {cycle}: HDLLogWrapper printed {recs!r}, trigger∧context gives {want!r} "
+                    f"(compared: '<logger>: <message>' at the end of the line)")
+        for ln, j in zip(recs, assign):
+            self.hit("hdl_record_printed")
+            name = logging.getLevelName(want[j][1])
+            if not (ln.startswith(name + " ") if sep else ln.startswith(f"[{cycle}] {name} ")):
+                self.hit("hdl_line_prefix_differs")
+        if sep and nsep != (1 if want else 0):
+            self.hit("hdl_separator_count_differs")
+        if self.hdl.get("comp"):
+            self.hit("hdl_wrapper_component")
+
     def check(self, cyc, stim, obs):
         if self.ended:
             return
         if cyc > 0:
+            if self.hdl:
+                self._compare_hdl(cyc - 1)
             self._compare_reported(cyc - 1)
             if self.ended:
                 return
-        ctx = eval_sites(self.cfg["prog"], stim, obs)
+        ctx = self.ev.step(stim, obs)
         fired = []
         ctxsig = []
         for idx, k in enumerate(self.order):
             s = self.sites[k]
             c = ctx[k]
             active = c["body"] and c["cond"]
+            top = is_top(s)  # documented: "The top_* logging functions ignore m.If etc. for triggering"
             val = bool(stim.get(f"s{k}.trig", 0) & ((1 << s["whenw"]) - 1))
             trig = (not val) if s["level"] == "assert" else val
-            fire = trig and active
+            fire = trig and (active or top)
             got_t = obs[f"site{idx}.trig"]
             self.expect(got_t == int(fire), "trigger-mismatch",
-                        f"site {idx} ({s['level']}): trigger signal {got_t}, but trigger={int(trig)} body-runs={int(c['body'])} "
-                        f"branches-selected={int(c['cond'])}", site=k, where=self.cfg["where"][str(k)][0])
+                        f"site {idx} ({entry_point(s)}): trigger signal {got_t}, but trigger={int(trig)} "
+                        f"body-runs={int(c['body'])} branches-selected={int(c['cond'])}"
+                        + (" (a top_* site: not gated by its context)" if top else ""), site=k,
+                        where=self.cfg["where"][str(k)][0], entry=entry_point(s))
             ctxsig.append((int(c["body"]), int(c["cond"]), int(trig)))
             if not fire:
                 if trig:
@@ -378,9 +576,15 @@ class Scen(CompScenario):
                     self.hit("body_not_running_blocks" if not c["body"] else "branch_not_selected_blocks")
                     if s["level"] == "assert":
                         self.hit("failed_assertion_outside_context")
+                    if c["fsm"] is False:
+                        self.hit("fsm_state_blocks")
+                    if c["av"] is False:
+                        self.hit("avoided_if_blocks")
                 continue
             fired.append(idx)
-            if not self.included[idx]:
+            if top and not active:
+                self.hit("top_site_fires_outside_context")
+            if not self.included[idx] and not self.hdl_included[idx]:
                 self.hit("filtered_by_level_or_namespace")
                 continue
             vals = [self._field_value(k, fi, stim, obs, c["meth"]) for fi in range(len(s["fields"]))]
@@ -389,9 +593,27 @@ class Scen(CompScenario):
                 msg = fmt.format(**{f"f{fi}": v for fi, v in enumerate(vals)})
             else:
                 msg = fmt.format(*vals)
-            self.pending.append((cyc, LOGGERS[s["logger"]], LEVELS[s["level"]], msg))
+            if self.hdl_included[idx]:
+                self.hdl_pending.append((LOGGERS[s["logger"]], level_no(s), msg))
+            if not self.included[idx]:
+                self.hit("filtered_by_level_or_namespace")
+                continue
+            self.pending.append((cyc, LOGGERS[s["logger"]], level_no(s), msg))
             self.hit(f"level_{s['level']}")
-            if LEVELS[s["level"]] >= logging.ERROR:
+            self.hit(f"entry_{entry_point(s)}")
+            if s["level"] == "custom":
+                self.hit("custom_level_at_or_above_error" if level_no(s) >= logging.ERROR else "custom_level_below_error")
+            if s["logger"] == GLOBAL:
+                self.hit("default_logger_name_global")
+            if s.get("nofmt"):
+                self.hit("default_empty_format")
+            if s.get("defloc"):
+                self.hit("default_src_loc")
+            if active and c["fsm"]:
+                self.hit("fired_in_fsm_state")
+            if active and c["av"]:
+                self.hit("fired_under_avoided_if")
+            if level_no(s) >= logging.ERROR:
                 self.any_error_expected = True
             for fi, v in enumerate(vals):
                 kind = s["fields"][fi]["src"]["kind"]
@@ -401,6 +623,8 @@ class Scen(CompScenario):
                     self.hit("string_field")
                 if kind in ("arg", "sarg"):
                     self.hit("method_argument_field")
+            if not active:
+                continue
             if c["meth"] is not None:
                 self.hit("fired_in_method_body")
             elif self.cfg["where"][str(k)][0] == "trans":
@@ -414,6 +638,8 @@ class Scen(CompScenario):
 
     def finish(self):
         if not self.ended:
+            if self.hdl:
+                self._compare_hdl(self.ncyc - 1)
             self._compare_reported(self.ncyc - 1)
         if not self.cfg["fatal"]:
             self.hit("run_without_failure")
@@ -421,7 +647,8 @@ class Scen(CompScenario):
             self.hit("fatal_run_without_error_record")
 
     def after_sim(self):
-        logging.getLogger(ROOT_NS).removeHandler(self.handler)
+        for name in (ROOT_NS, LOGGERS[GLOBAL]):
+            logging.getLogger(name).removeHandler(self.handler)
         self.notes["records"] = len(self.captured)
         self.notes["failed_at"] = self.failed_at
 
@@ -457,10 +684,15 @@ class Prop(PropBase):
         "thorough": {"runs": 30000, "selftest_runs": 32},
     }
     rule = ("one run = one generated design (1-2 TModules, 0-3 transactions, 0-2 methods, 2-5 log sites of level "
-            "debug/info/warning/error/assertion under nested If/Elif/Else/Switch inside or outside bodies; format "
+            "debug/info/warning/error/assertion or a custom integer level, each through one of the 15 entry points "
+            "(HardwareLogger.debug..assertion/log, top_debug..top_assertion/top_log, module-level assertion / "
+            "top_assertion; defaults of name=, format= and src_loc= in a share), under nested If/Elif/Else/Switch/"
+            "AvoidedIf/FSM-State inside or outside bodies; format "
             "strings with 0-4 fields in automatic, positional or keyword style and specs from a table of 40; fields of "
             "width 1-16, signed, sliced, summed, constant, packed text or a method argument; a level / namespace "
-            "filter; fatal or counting on_error) driven for 30-140 cycles by a phase plan; distinct = distinct (design, "
+            "filter; fatal or counting on_error, in half of the fatal runs the process and on_error the library's test "
+            "case builds; in 15% of the runs HDLLogWrapper(-Component) around the design with its Print output "
+            "captured) driven for 30-140 cycles by a phase plan; distinct = distinct (design, "
             "per-site (body runs, branches selected, trigger) vector, fired set); non-trivial = two or more records in "
             "a cycle or a raised trigger blocked by its context")
     expected_cov = ["context_blocks_trigger", "body_not_running_blocks", "branch_not_selected_blocks",
@@ -468,14 +700,27 @@ class Prop(PropBase):
                     "level_debug", "level_info", "level_warning", "level_error", "level_assert", "on_error_called",
                     "two_errors_same_cycle", "failure_ended_run", "run_without_failure", "fatal_run_without_error_record",
                     "filtered_by_level_or_namespace", "signed_negative_value", "string_field", "method_argument_field",
-                    "fired_in_method_body", "fired_in_transaction_body"]
-    real = ["transactron.utils.logging.HardwareLogger (debug/info/warning/error/log/assertion) and assertion()",
-            "transactron.utils.logging.LogRecordInfo.format / get_log_records / get_trigger_bit",
-            "transactron.testing.logging.make_logging_process", "transactron.testing.tick_count.make_tick_count_process",
-            "Python logging (loggers, handler dispatch)", "TModule / Transaction / Method / def_method",
+                    "fired_in_method_body", "fired_in_transaction_body",
+                    "entry_log", "entry_module_assertion", "entry_top_log", "entry_top_debug", "entry_top_info",
+                    "entry_top_warning", "entry_top_error", "entry_top_assertion", "entry_module_top_assertion",
+                    "top_site_fires_outside_context", "level_custom", "custom_level_at_or_above_error",
+                    "custom_level_below_error", "default_logger_name_global", "default_empty_format", "default_src_loc",
+                    "fired_in_fsm_state", "fsm_state_blocks", "fired_under_avoided_if", "avoided_if_blocks",
+                    "library_on_error_ended_run", "library_level_given_by_name", "hdl_record_printed",
+                    "hdl_wrapper_component"]
+    real = ["transactron.utils.logging.HardwareLogger (debug/info/warning/error/log/assertion, top_debug/top_info/"
+            "top_warning/top_error/top_log/top_assertion) and the module-level assertion() / top_assertion()",
+            "transactron.utils.logging.LogRecordInfo.format / get_log_records / get_trigger_bit / LogRecord.to_amaranth_format",
+            "transactron.testing.logging.make_logging_process / parse_logging_level / HDLLogWrapper / HDLLogWrapperComponent",
+            "transactron.testing.test_case.TestCaseWithSimulatorBase._configure_logging (its on_error and process factory)",
+            "transactron.testing.tick_count.make_tick_count_process",
+            "Python logging (loggers, handler dispatch)", "TModule (If/Elif/Else/Switch/AvoidedIf/FSM/State) / Transaction / "
+            "Method / def_method",
             "TransactionManager + scheduler", "amaranth Format parsing", "amaranth pysim"]
     stubs = ["cycle driver (stimulus)", "host design that carries the log sites", "capturing logging.Handler",
-             "on_error callback (counting, or raising like TestCaseWithSimulator's)"]
+             "on_error callback (counting, or raising like TestCaseWithSimulator's) in the runs that do not use the "
+             "library's own", "`print` of the code pysim compiles (captures HDLLogWrapper's output)",
+             "empty-signature Component around the container (HDLLogWrapperComponent runs)"]
     search_space = "log-site sets, format specifications, module contexts and trigger / field / request histories"
     assumptions = ["log records are matched to the log statements by registration order; the raw record (cycle stamp, logger name, "
                    "level, message) is taken as the library's simulation logging process hands it to Python logging",
@@ -487,17 +732,25 @@ class Prop(PropBase):
                    "outside the statement)",
                    "the failure raised by on_error is observed where it leaves the library's logging coroutine; that "
                    "Amaranth's sim.run() re-raises an exception of a process is trusted",
-                   "the cycle of a record is the library's tick counter as published in testing.logging._sim_cycle"]
+                   "the cycle of a record is the library's tick counter as published in testing.logging._sim_cycle",
+                   "top_* entry points: 'within its module context' is read with the library's documentation of these "
+                   "functions ('ignore m.If etc. for triggering'): the record is expected whenever the trigger holds",
+                   "HDLLogWrapper: a printed line belongs to the cycle that ended with the clock edge at which pysim "
+                   "executed the Print; compared are the logger name and the message at the end of the line, nothing else",
+                   "the library's TestCaseWithSimulator cannot own the kernel's simulator; its logging set-up "
+                   "(_configure_logging: environment variables -> parse_logging_level -> make_logging_process with its own "
+                   "on_error) is taken from a TestCaseWithSimulatorBase instance instead"]
 
     def gen_config(self, rng, tier, idx):
         big = tier == "thorough"
         nsites = rng.randint(2, 5)
-        prog, where = gen_prog(rng, nsites)
+        prog, where = gen_prog(rng, nsites, ext=rng.random() < 0.5)
         fatal = rng.random() < 0.35
         sites = []
         for k in range(nsites):
             w = where[str(k)]
-            argw = prog["meths"][w[1]]["argw"] if w[0] == "meth" else 0
+            top = rng.random() < 0.25  # a top_* entry point: no module, not gated (and no method argument at hand)
+            argw = prog["meths"][w[1]]["argw"] if w[0] == "meth" and not top else 0
             nf = rng.choice([0, 1, 1, 2, 2, 3, 4])
             fields, types = [], []
             for _ in range(nf):
@@ -516,32 +769,56 @@ class Prop(PropBase):
                 spec = rng.choice({"int": INT_SPECS, "str": STR_SPECS, "chr": CHR_SPECS}[types[fi]])
                 pieces.append(["fld", fi, spec])
             pieces.append(["lit", rng.choice(LITERALS)])
-            level = rng.choice(["debug", "info", "warning", "warning", "error", "assert"])
+            level = rng.choice(["debug", "info", "warning", "warning", "error", "assert", "assert", "custom"])
             wide = rng.random() < 0.25
-            sites.append({"level": level, "logger": rng.randrange(len(LOGGERS)), "short": int(rng.random() < 0.25),
-                          "whenw": rng.randint(2, 4) if wide else 1, "style": style, "pieces": pieces, "fields": fields})
-        if fatal and rng.random() < 0.8 and not any(s["level"] in ("error", "assert") for s in sites):
-            sites[rng.randrange(nsites)]["level"] = rng.choice(["error", "assert"])
+            site = {"level": level, "logger": rng.randrange(GLOBAL), "short": int(rng.random() < 0.25),
+                    "whenw": rng.randint(2, 4) if wide else 1, "style": style, "pieces": pieces, "fields": fields}
+            if top:
+                site["api"] = "top"
+            if level == "custom":
+                site["lvlno"] = rng.choice(CUSTOM_LEVELS)
+            if rng.random() < 0.2:
+                site["defloc"] = 1  # src_loc left at its default
+            if level == "assert":
+                r = rng.random()
+                if site["short"] and r < 0.4:
+                    site["logger"] = GLOBAL  # module-level assertion() / top_assertion() without name=
+                elif not site["short"] and not top and r < 0.25:
+                    site.update(nofmt=1, style="auto", pieces=[], fields=[])  # HardwareLogger.assertion(m, value)
+            sites.append(site)
+        if fatal and rng.random() < 0.8 and not any(level_no(s) >= logging.ERROR for s in sites):
+            sites[rng.randrange(nsites)].update(level=rng.choice(["error", "assert"]), short=0)
         cycles = rng.randint(30, 140 if big else 90)
-        min_level = rng.choice([logging.DEBUG] * 7 + [logging.INFO, logging.WARNING, logging.ERROR])
+        min_level = rng.choice([logging.DEBUG] * 7 + [logging.INFO, logging.WARNING, logging.ERROR, 0, 25, 35])
         # only filters that select the same loggers under re.search, re.match and re.fullmatch (ns_agrees)
-        ns = rng.choice([".*"] * 7 + [r"c34v\.core(\.alu)?", r"^c34v\.mem$", r"c34v\.(core\.alu|mem)"])
+        ns = rng.choice([".*"] * 7 + [r"c34v\.core(\.alu)?", r"^c34v\.mem$", r"c34v\.(core\.alu|mem)", "^global$"])
         if fatal and rng.random() < 0.7:
             min_level, ns = logging.DEBUG, ".*"
-        return {"prog": prog, "where": where, "sites": sites, "cycles": cycles, "fatal": fatal,
-                "perr": rng.choice([0.0, 0.05, 0.15, 0.4, 1.0]) if fatal else 1.0, "min_level": min_level, "ns": ns,
-                "sched": rng.choice(["eager", "eager", "rr"]),
-                "plan": make_plan(rng, cycles, ["random", "random", "on", "off", "quiet", "flap"], min_len=5, max_len=30)}
+        cfg = {"prog": prog, "where": where, "sites": sites, "cycles": cycles, "fatal": fatal,
+               "perr": rng.choice([0.0, 0.05, 0.15, 0.4, 1.0]) if fatal else 1.0, "min_level": min_level, "ns": ns,
+               "sched": rng.choice(["eager", "eager", "rr"]),
+               "plan": make_plan(rng, cycles, ["random", "random", "on", "off", "quiet", "flap"], min_len=5, max_len=30)}
+        # fatal runs: half of them with the logging process + on_error the library's test case builds
+        cfg["real_tc"] = int(fatal and rng.random() < 0.5)
+        cfg["lvl_text"] = rng.choice(["num", "upper", "lower"])
+        # a share of the runs: the HDL print back end next to the logging process
+        cfg["hdl"] = None
+        if rng.random() < 0.15:
+            cfg["hdl"] = {"dflt": int(rng.random() < 0.25), "sep": int(rng.random() < 0.6), "loc": int(rng.random() < 0.4),
+                          "comp": int(rng.random() < 0.35)}
+        return cfg
 
     def make(self, cfg):
         return Scen(cfg)
 
     def features(self, cfg, viol):
         info = viol.get("info") or {}
-        return {"where": info.get("where"), "level": info.get("level")}
+        return {"where": info.get("where"), "level": info.get("level"), "entry": info.get("entry"),
+                "real_tc": info.get("real_tc")}
 
     def cfg_signature(self, cfg):
-        return [cfg["prog"], cfg["sites"], cfg["sched"], cfg["fatal"], cfg["min_level"], cfg["ns"]]
+        return [cfg["prog"], cfg["sites"], cfg["sched"], cfg["fatal"], cfg["min_level"], cfg["ns"],
+                cfg.get("real_tc", 0), cfg.get("hdl")]
 
 
 PROP = Prop()
